@@ -171,6 +171,7 @@ func init() {
 		rule("R5-completion-group", ruleCompletionGroup).
 		rule("R5-groups", ruleWhoConstructs(groupOwners)).
 		rule("router-error-stops", ruleRouterErrorStops).
+		rule("sweep-answers", ruleSweepAnswers).
 		rule("R1R2-sql-spec", ruleSQLSpec(kindList("CreatePromiseAndTask", "CreatePromise", "CreateTask", "ReadEnqueueableTasks", "CompleteTasks", "UpdateTask"))).
 		rule("R9-command-provenance", ruleCmdProvenance("CreateTaskCommand", "CreatePromiseAndTaskCommand", "UpdateTaskCommand", "CompleteTasksCommand", "ReadEnqueueableTasksCommand")).
 		rule("R6-object-provenance", ruleObjProvenance("Task", "SenderSubmission"))
@@ -288,6 +289,7 @@ func init() {
 		[]string{"the number of cycles (no bound is computed)", "fairness between the five coroutines", "transient-failure sequences"}).
 		rule("R17-tick", ruleTick).
 		rule("R17-background", ruleBackground(true)).
+		rule("sweep-answers", ruleSweepAnswers).
 		rule("R10-exactly-once", ruleExactlyOnce).
 		rule("R1R2-sql-spec", ruleSQLSpec(kindList("ReadPromises", "ReadSchedules", "ReadTasks", "ReadEnqueueableTasks", "TimeoutLocks", "UpdatePromise", "UpdateSchedule", "UpdateTask"))).
 		rule("R9-command-provenance", ruleCmdProvenance("ReadPromisesCommand", "ReadSchedulesCommand", "ReadTasksCommand", "ReadEnqueueableTasksCommand", "TimeoutLocksCommand", "UpdatePromiseCommand", "UpdateScheduleCommand", "UpdateTaskCommand"))
